@@ -114,6 +114,35 @@ def addLorentzianLine (F : Fns α) (I : α → α → α → α → α) (cut R w
     let lowerW := s.mn + (st : α) * s.dl
     { s with samples := addAt st.toNat (lorentzContrib (I wl fwhm) R s.mn s.dl (en - st).toNat st lowerW) s.samples }
 
+/-! post-fix form of `add_lorentzian_line` (notes/fixes/C02-1.diff): closed-form cumulative instead of a bin quadrature.
+The harness selects this variant when stark.pyx no longer calls `integrator.evaluate` inside the bin loop. -/
+
+/-- Cython `max(a, b)` / `min(a, b)` on doubles -/
+def maxv (a b : α) : α := if b > a then b else a
+def minv (a b : α) : α := if b < a then b else a
+
+/-- patched loop: `C x` = `_stark_cumulative(x, wavelength, half_width)`, clipped at the upper cut-off `cu` -/
+def lorentzCdfContrib (C : α → α) (R norm mn dl cu : α) : Nat → Int → α → List α
+  | 0, _, _ => []
+  | n + 1, i, lowerC =>
+    let upperW := mn + dl * ((i + 1 : Int) : α)
+    let upperC := C (minv upperW cu)
+    (R * (norm * (upperC - lowerC)) / dl) :: lorentzCdfContrib C R norm mn dl cu n (i + 1) upperC
+
+/-- patched `add_lorentzian_line`; `G wl hw x` = signed ∫ du/(1+|u|^2.5) from 0 to (x − wl)/hw; `normC` = STARK_NORM_COEFFICIENT -/
+def addLorentzianLineCdf (F : Fns α) (G : α → α → α → α) (normC cut R wl fwhm : α) (s : Spec α) : Spec α :=
+  if fwhm ≤ 0 then s else
+  match lineRange F cut wl fwhm s with
+  | none => s
+  | some (st, en) =>
+    let cl := wl - cut * fwhm
+    let cu := wl + cut * fwhm
+    let hw := 0.5 * fwhm
+    let norm := 1.0 / normC
+    let lowerW := s.mn + (st : α) * s.dl
+    let lowerC := G wl hw (maxv lowerW cl)
+    { s with samples := addAt st.toNat (lorentzCdfContrib (G wl hw) R norm s.mn s.dl cu (en - st).toNat st lowerC) s.samples }
+
 def addComp (F : Fns α) (I : α → α → α → α → α) (cutG cutL : α) (s : Spec α) (c : Comp α) : Spec α :=
   if c.lor then addLorentzianLine F I cutL c.rad c.wl c.width s
   else addGaussianLine F cutG c.rad c.wl c.width s
